@@ -58,6 +58,7 @@ type GenomeCfg struct {
 	TraitBase1   bool // trait ids start at 1
 	SingleOutMod bool // modules have exactly one output (required to activate multiply/max/min modules)
 	SensorsFirst bool // never place a sensor behind a neuron in the node list
+	EnabledOf10  int  // how many genes out of ten are enabled on average (0 = the default of seven)
 }
 
 // genGenomeSpec is G-direct: a hand-built well-formed genome.
@@ -177,7 +178,11 @@ func drawGenomeSpec(t *rapid.T, cfg GenomeCfg) GenomeSpec {
 		if rapid.IntRange(0, 2).Draw(t, "mut differs") == 0 {
 			mut = wgen.Draw(t, "mut")
 		}
-		en := cfg.AllEnabled || rapid.IntRange(0, 9).Draw(t, "enabled") < 7
+		enabledOf10 := cfg.EnabledOf10
+		if enabledOf10 == 0 {
+			enabledOf10 = 7
+		}
+		en := cfg.AllEnabled || rapid.IntRange(0, 9).Draw(t, "enabled") < enabledOf10
 		s.Genes = append(s.Genes, GeneSpec{In: k.in, Out: k.out, W: w, Rec: k.rec, Innov: innov, Mut: mut, En: en, Trait: drawTrait("gene trait")})
 	}
 	for len(s.Genes) < minGenes { // dense small genome: fill deterministically
@@ -369,11 +374,43 @@ func drawFamily(t *rapid.T, members, maxEvents int) []GenomeSpec {
 	for _, n := range nodes {
 		roleOf[n.Id] = n
 	}
+	// Optional renaming shared by the whole lineage: node ids in another order than "sensors, outputs, hidden nodes by
+	// age" (a hidden node may carry the lowest id, sensors may follow neurons). Genomes keep their nodes sorted by id; equal innovation numbers still denote equal links.
+	rename := map[int]int{}
+	if rapid.IntRange(0, 3).Draw(t, "rename nodes") == 0 {
+		var ids []int
+		for _, n := range nodes {
+			ids = append(ids, n.Id)
+		}
+		perm := rapid.Permutation(ids).Draw(t, "node id permutation")
+		for i, n := range nodes {
+			rename[n.Id] = perm[i]
+		}
+	}
+	traitIds := make([]int, nTraits)
+	for i := range traitIds {
+		traitIds[i] = 1 + i
+	}
+	// (trait ids stay ascending and consecutive: every crossover locates a trait as id - Traits[0].Id, so other orders make the
+	// unchanged library index out of range - they are outside the domain, see DESIGN section 9 on C04-r3-m1)
+	renamed := func(s GenomeSpec) GenomeSpec {
+		if len(rename) == 0 {
+			return s
+		}
+		for i := range s.Nodes {
+			s.Nodes[i].Id = rename[s.Nodes[i].Id]
+		}
+		sort.Slice(s.Nodes, func(a, b int) bool { return s.Nodes[a].Id < s.Nodes[b].Id })
+		for i := range s.Genes {
+			s.Genes[i].In, s.Genes[i].Out = rename[s.Genes[i].In], rename[s.Genes[i].Out]
+		}
+		return s
+	}
 	fam := make([]GenomeSpec, members)
 	for m := range fam {
 		s := GenomeSpec{Id: m + 1}
 		for i := 0; i < nTraits; i++ {
-			s.Traits = append(s.Traits, TraitSpec{Id: 1 + i, Params: genTraitParams(t)})
+			s.Traits = append(s.Traits, TraitSpec{Id: traitIds[i], Params: genTraitParams(t)})
 		}
 		pInclude := rapid.Float64Range(0, 1).Draw(t, "include prob")
 		taken := make([]bool, len(table))
@@ -435,7 +472,7 @@ func drawFamily(t *rapid.T, members, maxEvents int) []GenomeSpec {
 			n.Trait = rapid.IntRange(0, nTraits).Draw(t, "node trait")
 			s.Nodes = append(s.Nodes, n)
 		}
-		fam[m] = s
+		fam[m] = renamed(s)
 	}
 	return fam
 }
